@@ -34,14 +34,14 @@ def make_api(ctx, count):
                 ops.append(("ADV", ms))
             elif r < 0.50:
                 s.add("TA 0 %s %d %d" % (k[0].hex(), k[1], rng.randint(0, 5)))
-                ops.append(("TA",))
+                ops.append(("TA", k))
             elif r < 0.58:
                 c = 1 if (style == "complete" or rng.random() < 0.6) else 0
                 s.add("TM 0 %s %d %d" % (k[0].hex(), k[1], c))
-                ops.append(("TM",))
+                ops.append(("TM", k, c))
             elif r < 0.62:
                 s.add("TR 0 %s %d" % (k[0].hex(), k[1]))
-                ops.append(("TR",))
+                ops.append(("TR", k))
             elif r < 0.635:
                 s.add("TC 0")
                 ops.append(("TC",))
@@ -130,7 +130,7 @@ def make_flow(ctx, count):
                 else:
                     fr = G.f_misc(rng, net)
                 s.frame(0, fr, op="W")
-                ops.append(("W", fr[15], fr[17]))
+                ops.append(("W", fr[15], fr[17], (fr[24:30], int.from_bytes(fr[32:34], "big")) if len(fr) >= 36 else None))
         s.meta = dict(ops=ops, kind="flow", now=now, shadow=shadow)
         scns.append(s)
     return scns
@@ -162,14 +162,84 @@ def monitor(scn, sobj, rep, sf, ck):
     clock = sobj.meta["now"]
     last_frame = None           # daemon-flow histories: when the last frame arrived on this interface
     flow = sobj.meta["kind"] == "flow"
+    # the monitor's own book of sessions: a superset of the sessions that can be live (removal by expiry or by the 30 s
+    # silence rule only marks them 'maybe gone'), each with "certainly complete while live" or not.  A periodic Hello needs
+    # a live session that is not complete, so it needs an entry here that is not certainly complete - a table that still
+    # holds a session the daemon cleared, removed or reset long ago fails this.
+    book = {}                   # key -> dict(complete=bool, last=ms, maybe_gone=bool)
+    map_state = [0]
+    armed_at = None             # when the inactivity timer was last restarted (ms)
+    book_unknown = False
+
+    def book_add(k, now_ms, acking=None):
+        e = book.get(k)
+        if e is None or e["maybe_gone"]:
+            book[k] = dict(complete=bool(acking), last=now_ms, maybe_gone=False)
+        else:
+            e["last"] = now_ms
+            if acking:
+                e["complete"] = True
+
+    def book_tick(now_ms):
+        for e in book.values():
+            if now_ms - e["last"] > 59000 or (armed_at is not None and now_ms - armed_at > 29000):
+                e["maybe_gone"] = True
+
+    def book_update(inp, op, now_ms):
+        nonlocal armed_at, book_unknown
+        kind = op[0]
+        if kind == "TA":
+            book_add(op[1], now_ms)
+        elif kind == "TM":
+            e = book.get(op[1])
+            if e is not None:
+                e["complete"] = bool(op[2])     # if it is gone meanwhile this is a no-op there, and a re-add starts afresh here too
+        elif kind == "TR":
+            book.pop(op[1], None)
+        elif kind == "TC":
+            book.clear()
+            book_unknown = False
+        elif kind == "MR":
+            armed_at = now_ms
+        elif kind == "W":
+            armed_at = now_ms
+            if op[2] == W.OP_RESET:
+                book.clear()
+                book_unknown = False
+            elif op[2] == W.OP_DISCOVER:
+                r = next((x[1] for x in inp.ev if x[0] == "R"), None)
+                if op[3] is None or r is None:
+                    book_unknown = True           # session key taken from stale buffer content: not modelled
+                else:
+                    book_add(op[3], now_ms, acking=r in (3, 5))
+        if kind in ("K", "KR", "W"):
+            book_tick(now_ms)
+        if kind == "W":
+            # the daemon clears the table whenever the mapping engine falls back to idle (Reset, state timeout)
+            mm = last_snap(inp, "M")
+            if mm is not None:
+                st = int(mm[0])
+                if st == 0 and map_state[0] != 0:
+                    for e in book.values():
+                        e["maybe_gone"] = True
+                map_state[0] = st
 
     def handle(inp, op):
         nonlocal last_cb, callbacks, enum_state, tcount, inact, band_hello, checked
         hs = [e for e in inp.ev if e[0] == "H"]
+        book_update(inp, op, clock)
         for h in hs:
             _, ifc, now, valid, incomplete, in_tick = h
             callbacks += 1
             checked += 1
+            if not book_unknown:
+                if any(not e["complete"] for e in book.values()):
+                    seen.add("hello-with-a-booked-incomplete-session")
+                else:
+                    bad("hello-although-every-session-since-the-last-clear-is-complete-or-gone",
+                        "send_hello at t=%d; sessions added since the table was last cleared/reset: %s; the table reports %d live, %d incomplete"
+                        % (now, ["%s/%d:%s" % (k[0].hex(), k[1], "complete" if e["complete"] else "incomplete") for k, e in book.items()],
+                           valid, incomplete), inp)
             if flow and last_frame is not None and inp.op == "K":
                 if now != clock:
                     rep.inconclusive.append("scenario %s input %d: the monitor's clock (%d) and the port's (%d) disagree" % (scn.sid, inp.n, clock, now))
@@ -271,6 +341,6 @@ def run(ctx):
     rep.need("callbacks", c.get("callbacks", 0), 1000)
     rep.need("callbacks_flow", c.get("callbacks_flow", 0), 200)
     rep.need("ticks_beside_a_second_interface", c.get("ticks_beside_a_second_interface", 0), 1000)
-    for name in ("hello-late-in-the-silence", "suppressed-by-min-interval", "emptied-by-30s-inactivity", "emptied-by-60s-expiry", "pausing>wait",
+    for name in ("hello-with-a-booked-incomplete-session", "hello-late-in-the-silence", "suppressed-by-min-interval", "emptied-by-30s-inactivity", "emptied-by-60s-expiry", "pausing>wait",
                  "wait>quiescent", "paced-at-min-interval"):
         rep.need(name, c.get("reach:" + name, 0), 10)
